@@ -213,3 +213,101 @@ def rewind_stream(env: Env, out: Outcome, n: int) -> None:
                      "rewind_case": {"gen_seed": gen_seed}}
         d.op, d.model_out, d.impl_out = d.op[:3000], d.model_out[:3000], d.impl_out[:3000]
         out.divergences.append(d)
+
+
+# ------------------------------------------------------------------ the server side: what IdleReleaseDecorator treats as idle
+
+#: the scenario of a promptly answered idle run: idle announced, an event delivered while the run is still in memory, the
+#: step it starts outlives the release timer armed by the FIRST announcement
+SERVER_CORPUS: list[dict] = [
+    {"tau": 0.2, "store": "memory", "yielding": False, "wf": {"dur": {"1": 0.5}, "final": 99}, "plan": [{"at": 0.1, "n": 1}, {"at": 1.5, "n": 99}]},
+    {"tau": 0.2, "store": "sqlite", "yielding": False, "wf": {"dur": {"1": 0.3, "2": 0.3}, "final": 99, "nw": 2},
+     "plan": [{"at": 0.05, "n": 1}, {"at": 0.15, "n": 2}, {"at": 2.0, "n": 99}]},
+    {"tau": 0.1, "store": "memory", "yielding": False, "wf": {"dur": {"1": 0.0}, "final": 99}, "plan": [{"at": 0.05, "n": 1}, {"at": 0.5, "n": 99}]},
+]
+
+
+def server_monitors(case: dict, r: dict) -> list[tuple[str, str]]:
+    """C03 on the observation log of the real in-process server stack (harness/server/idle.py): the store's idle mark is
+    written by an idle announcement only, a delivery to the run in memory withdraws it, a release needs a mark at least
+    `idle_timeout` old, and a run is not released over an event delivered after its last announcement."""
+    from ..server.idle_check import _field
+
+    ev = r["events"]
+    impl = r["impl"]
+    tau = r["tau_ms"]
+    out: list[tuple[str, str]] = []
+    ops = [e for e in ev if e["ev"] == "op" and e["idx"] < len(impl)]
+    prev_idle = "-"
+    last_mark_t: int | None = None
+    last_deliver_active: int | None = None
+    for i, e in enumerate(ev):
+        if e["ev"] != "op" or e["idx"] >= len(impl):
+            if e["ev"] == "abort" and e.get("by", ("", 0))[0] == "t":
+                j = e["by"][1]
+                q = next((o for o in reversed(ops) if o["op"] == f"tquery|{j}" and o["t"] <= e["t"]), None)
+                seen = _field(impl[q["idx"]], "idle") if q is not None else "?"
+                if seen in ("-", "?") or e["t"] - int(seen) < tau:
+                    out.append(("C03/server_release_without_elapsed_idle_mark",
+                                f"the run was released at t={e['t']} ms on idle_since={seen} (idle_timeout {tau} ms)"))
+                if last_deliver_active is not None and (last_mark_t is None or last_mark_t < last_deliver_active) and e.get("steps_running", 0) > 0:
+                    out.append(("C03/server_idle_report_not_withdrawn",
+                                f"the run was released at t={e['t']} ms with {e.get('steps_running')} step(s) running although an event was delivered to it in memory at "
+                                f"t={last_deliver_active} ms, after its last idle announcement (t={last_mark_t} ms)"))
+            continue
+        kind = e["op"].partition("|")[0]
+        line = impl[e["idx"]]
+        idle = _field(line, "idle")
+        if kind == "mark":
+            last_mark_t = e["t"]
+            prev = ev[i - 1] if i > 0 else {}
+            if prev.get("ev") != "idle_published" or prev.get("t") != e["t"]:
+                out.append(("C03/server_idle_mark_without_idle_event", f"idle_since was written at t={e['t']} ms without a WorkflowIdleEvent being published"))
+        elif idle != prev_idle and idle != "-":
+            out.append(("C03/server_idle_since_set_by:" + kind, f"idle_since changed from {prev_idle} to {idle} by `{e['op']}`, which is not an idle announcement"))
+        if kind == "sdeliver" and not case.get("yielding"):
+            if idle != "-":
+                out.append(("C03/server_idle_mark_survives_send", f"after send_event({e['op'].partition('|')[2]}) returned at t={e['t']} ms the handler still "
+                                                                  f"has idle_since={idle}: the idle report was not withdrawn"))
+            if _field(line, "act") == "1":
+                last_deliver_active = e["t"]
+        prev_idle = idle
+    seen_sigs: set[str] = set()
+    res = []
+    for s, w in out:
+        if s not in seen_sigs:
+            seen_sigs.add(s)
+            res.append((s, w))
+    return res
+
+
+def server_idle_side(env: Env, out: Outcome, n: int) -> None:
+    """the anchored idle_release_runtime.py, run for real (PersistenceDecorator + IdleReleaseDecorator over BasicRuntime under the
+    virtual-time loop; observation = harness/server/idle.py, shared with C26/C36, whose model correspondence is theirs)"""
+    from ..server import idle as IDLE
+    from ..server import idle_check as IC
+
+    rng = random.Random(env.rng.randrange(1 << 30))
+    cases: list[dict] = []
+    if env.replay is not None and isinstance(env.replay.get("payload", {}).get("case"), dict) and "server_case" in env.replay["payload"]["case"]:
+        cases.append(env.replay["payload"]["case"]["server_case"])
+    cases += [dict(c) for c in SERVER_CORPUS]
+    for k in range(n):
+        cases.append(IC.gen_case(rng, yielding=False, long_work=(k % 2 == 0), store=("sqlite" if k % 7 == 3 else "memory")))
+    for case in cases:
+        try:
+            r = IDLE.run_case(case)
+        except Exception as e:
+            out.notes.append(f"server_idle_side: case failed to run: {type(e).__name__}: {e}")
+            continue
+        out.evaluations += 1
+        marks = sum(1 for e in r["events"] if e["ev"] == "op" and e["op"] == "mark")
+        aborts = sum(1 for e in r["events"] if e["ev"] == "abort")
+        resident = sum(1 for e in r["events"] if e["ev"] == "op" and e["op"].startswith("sclear|"))
+        out.count(f"server:idle_marks:{min(marks, 3)}")
+        out.count(f"server:releases:{min(aborts, 3)}")
+        out.count(f"server:sends_to_resident_run:{min(resident, 3)}")
+        if marks and resident:
+            out.nontrivial(("server", repr(case)))
+        for sig, what in server_monitors(case, r):
+            out.violations.append(Violation(sig, what, {"server_case": dict(case, choices=r.get("choices"))}))
